@@ -31,7 +31,7 @@ def warm() -> None:
 def generate(rng, tier) -> dict:
     nbits = rng.choice([8, 8, 4])
     nsblk = rng.choice([4, 8, 16, 32, rng.randrange(4, 33, 2)])
-    nsub = rng.randint(2, 5)
+    nsub = rng.choice([1, 2, 2, 3, 4, 5])
     nchans = rng.choice([1, 2, 3, 4, 8]) if nbits == 8 else rng.choice([2, 4, 8])  # 1 channel: unreadable on the pinned tree (no channel spacing), excluded like npol 1/2
     pol, npol = rng.choice(LAYOUTS)
     N = nsblk * nsub
@@ -66,7 +66,7 @@ def generate(rng, tier) -> dict:
             "dseed": rng.randrange(1 << 30), "ops": ops, "earlier_same_path": rng.random() < 0.25, "gzip": rng.random() < 0.2,
             # header cards written by other software: the SIGN of CHAN_BW (bit 0) / OBSBW (bit 1) does not follow the
             # order of the DAT_FREQ table (a width stored as a positive number whatever the band sense)
-            "bw_cards": rng.choice([0, 0, 0, 1, 2, 3])}
+            "bw_cards": rng.choice([0, 0, 0, 1, 2, 3]), "per_row": rng.random() < 0.5}
 
 
 def fixup(sc):
@@ -114,12 +114,14 @@ def write_psrfits(path, sc):
     foff = 1.0 if sc["ascending"] else -1.0
     fch1 = 1400.0 if sc["ascending"] else 1400.0 + (nchans - 1)
     freqs = (fch1 + foff * np.arange(nchans)).astype(np.float64)
+    rows = nsub if sc.get("per_row") else 1  # scales / offsets / weights are per sub-integration ROW in PSRFITS
     if sc["scl"]:
-        scl = r.choice([0.25, 0.5, 1.0, 2.0], size=npol * nchans).astype(np.float32)
-        offs = r.integers(-4, 5, size=npol * nchans).astype(np.float32)
-        wts = r.choice([0.0, 0.5, 1.0, 1.0], size=nchans).astype(np.float32)
+        scl = r.choice([0.25, 0.5, 1.0, 2.0], size=(rows, npol * nchans)).astype(np.float32)
+        offs = r.integers(-4, 5, size=(rows, npol * nchans)).astype(np.float32)
+        wts = r.choice([0.0, 0.5, 1.0, 1.0], size=(rows, nchans)).astype(np.float32)
     else:
-        scl, offs, wts = np.ones(npol * nchans, np.float32), np.zeros(npol * nchans, np.float32), np.ones(nchans, np.float32)
+        scl, offs, wts = np.ones((rows, npol * nchans), np.float32), np.zeros((rows, npol * nchans), np.float32), np.ones((rows, nchans), np.float32)
+    scl, offs, wts = (np.repeat(a, nsub // rows, axis=0) for a in (scl, offs, wts))  # one line per row
     pri = fits.PrimaryHDU()
     h = pri.header
     for k, v in dict(FITSTYPE="PSRFITS", OBS_MODE="SEARCH", TELESCOP="Parkes", ANT_X=-4554231.5, ANT_Y=2816759.1, ANT_Z=-3454036.3,
@@ -138,9 +140,9 @@ def write_psrfits(path, sc):
     cols = [fits.Column(name="TSUBINT", format="1D", array=np.full(nsub, nsblk * tsamp)),
             fits.Column(name="OFFS_SUB", format="1D", array=(np.arange(nsub) + 0.5) * nsblk * tsamp),
             fits.Column(name="DAT_FREQ", format=f"{nchans}D", array=np.tile(freqs, (nsub, 1))),
-            fits.Column(name="DAT_WTS", format=f"{nchans}E", array=np.tile(wts, (nsub, 1))),
-            fits.Column(name="DAT_OFFS", format=f"{nchans * npol}E", array=np.tile(offs, (nsub, 1))),
-            fits.Column(name="DAT_SCL", format=f"{nchans * npol}E", array=np.tile(scl, (nsub, 1))),
+            fits.Column(name="DAT_WTS", format=f"{nchans}E", array=wts),
+            fits.Column(name="DAT_OFFS", format=f"{nchans * npol}E", array=offs),
+            fits.Column(name="DAT_SCL", format=f"{nchans * npol}E", array=scl),
             fits.Column(name="DATA", format=f"{darr.shape[1]}B", dim=dim, array=darr)]
     tb = fits.BinTableHDU.from_columns(cols, name="SUBINT")
     for k, v in dict(NPOL=npol, POL_TYPE=pol, TBIN=tsamp, NBITS=nbits, NCHAN=nchans, NSBLK=nsblk, CHAN_BW=foff * (-1 if int(sc.get("bw_cards") or 0) & 1 else 1), NSUBOFFS=0,
@@ -150,8 +152,9 @@ def write_psrfits(path, sc):
         warnings.simplefilter("ignore")
         fits.HDUList([pri, tb]).writeto(path, overwrite=True)
     # model of the calibrated, polarisation-selected samples, channels in DESCENDING frequency
-    x = (d.astype(np.float64) - sc["zero_off"]) * scl.reshape(npol, nchans)[None] + offs.reshape(npol, nchans)[None]
-    x = x * wts[None, None, :]
+    per = lambda a, shape: np.repeat(a.reshape((nsub,) + shape), nsblk, axis=0)  # noqa: E731 - row values, per sample
+    x = (d.astype(np.float64) - sc["zero_off"]) * per(scl, (npol, nchans)) + per(offs, (npol, nchans))
+    x = x * per(wts, (1, nchans))
     if pol == "AABBCRCI":
         m = (x[:, 0, :] + x[:, 1, :]) / np.sqrt(2.0)
     else:
@@ -204,6 +207,10 @@ def execute(sc, ctx) -> None:
         ctx.probe("ascending-band")
     if sc.get("bw_cards"):
         ctx.probe("bandwidth-card-sign-differs-from-the-frequency-table")
+    if sc.get("per_row") and sc["scl"] and sc["nsub"] > 1:
+        ctx.probe("scales-offsets-weights-differ-from-row-to-row")
+    if sc["nsub"] == 1:
+        ctx.probe("single-row-file")
     if sc["nbits"] == 4:
         ctx.probe("4-bit")
     if sc["scl"]:
